@@ -397,11 +397,25 @@ def r2_spans(facts, rep):
 
 def run(fx, rep, tier):
     rep.assume("arithmetic on i32 powers / prefixes cannot overflow within the property's bounds (<= 40 tokens, powers <= 2 digits, "
-               "prefixes <= 27): stated, not computed; termination is not decided")
+               "prefixes <= 27): stated, not computed; termination is decided for the lexer (R3) and follows for the parser from C12-R5's "
+               "finite abstract runs; evaluation recurses on a finite tree; round(x, n) loops |n| times (not bounded here)")
     for cfg, facts in fx.items():
         sub = rep if cfg == "dev" else type(rep)(rep.prop, rep.tier)
         r1_census(facts, sub, fx)
         r2_spans(facts, sub)
+        if cfg == "dev":
+            sub.rule("C11-R3", "the lexer terminates on every input: every token it returns is non-empty, it returns None only at the "
+                               "end of the input, and every loop of the lexer consumes input on each turn (abstract runs over the exact "
+                               "character partition, shared with C12-R3/R4/R6); the parser's loops end in the abstract runs of C12-R5")
+            from . import c12
+            from ..absint import chars as _chars
+            s3 = type(rep)(rep.prop, rep.tier)
+            c12.r3_progress(facts, s3, "quick")
+            consts, preds, unknown = _chars.char_constants(c12.lexer_bodies(facts))
+            c12.r6_loops(facts, s3, _chars.atoms(consts, preds))
+            for o in s3.obls:
+                o["rule"] = "C11-R3"
+                sub.obls.append(o)
         if sub is not rep:
             for o in sub.obls:
                 o["key"] += "[rel]"
